@@ -39,9 +39,12 @@ def split_histories(text):
     return hs
 
 
-def run_tlc(ctx, lines, tag, explain=False, timeout=600):
+KNOWN_SIG = "KVStoreConc:flushkv-mutation-visible-but-ErrStoreClosed"
+
+
+def run_tlc(ctx, lines, tag, explain=False, timeout=600, strict=False):
     sd = ctx.spec(SUB)
-    with open(os.path.join(sd, TRACE + ".cfg")) as fh:
+    with open(os.path.join(sd, TRACE + (".strict.cfg" if strict else ".cfg"))) as fh:
         cfg = fh.read()
     if explain:
         cfg = cfg.replace("Explain = FALSE", "Explain = TRUE")
@@ -203,6 +206,10 @@ class LinUnit(Unit):
             if racy:
                 return
             raise Inconclusive("driver recorded nothing")
+        # the forced schedule flushkv mutation / Close (known finding) is judged separately, by the STRICT reading
+        fcs = [h for h in hs if json.loads(h[0]).get("kind") == "flushclose"]
+        hs = [h for h in hs if json.loads(h[0]).get("kind") != "flushclose"]
+        self.flush_close(ctx, fcs)
         size = max(self.chunk, len(hs) // (self.jobs * 4))   # fewer, longer TLC runs for the thorough tier
         chunks = [hs[i:i + size] for i in range(0, len(hs), size)]
         controls = {}
@@ -258,10 +265,42 @@ class LinUnit(Unit):
             ctx.sample({"unit": self.name, "flow": "code->model (recorded concurrent history, first lines)",
                         "trace": [json.loads(x) for x in hs[0][:10]]})
 
+    def flush_close(self, ctx, fcs):
+        """T1's flushkv.Set is held in its trailing Flush, T3 reads the value, T2 closes, T1 returns ErrStoreClosed.
+        Relaxed reading (mutation, then Flush): must be accepted.  Strict reading (one atomic call, the letter of C05):
+        rejected -> the known finding, reported under its fixed sig."""
+        for n, h in enumerate(fcs):
+            head = json.loads(h[0])
+            r, ok, hw, _ = run_tlc(ctx, h, "fc%d" % n, timeout=120)
+            if r.status != "ok" or hw is None:
+                raise Inconclusive("flushkv/Close schedule: TLC did not run (%s)" % r.status)
+            if not ok:  # not even the two-step reading explains it: an ordinary violation
+                tag, what = describe(h, hw)
+                ctx.violation(self.name, "kvconc:" + tag, what, {"kind": "history", "line": hw, "lines": [json.loads(x) for x in h]})
+                continue
+            ctx.replayed += 1
+            ctx.bump("forced_schedules")
+            r, ok, hw, _ = run_tlc(ctx, h, "fc%d.strict" % n, timeout=120, strict=True)
+            if r.status != "ok" or hw is None:
+                raise Inconclusive("flushkv/Close schedule (strict): TLC did not run (%s)" % r.status)
+            self.info["flushclose_strict"] = "accepted" if ok else "rejected at line %d" % hw
+            if not ok:
+                evs = [json.loads(x) for x in h]
+                ctx.violation(self.name, KNOWN_SIG,
+                              "history #%s (flushclose, forced): thread 1's flushkv %s is held in the Flush that follows its inner "
+                              "mutation, thread 3's Get returns the written value %s, thread 2's Close returns, thread 1 returns %s: "
+                              "under the strict reading (a flushkv mutation is one atomic call; ErrStoreClosed = no effect) TLC finds "
+                              "no linearization (first unexplained line %d: %s)" % (
+                                  head.get("id"), json.dumps(evs[1]["call"], sort_keys=True),
+                                  json.dumps(next((e["res"] for e in evs if e["op"] == "ret" and e["t"] == 3), None), sort_keys=True),
+                                  json.dumps(next((e["res"] for e in evs if e["op"] == "ret" and e["t"] == 1), None), sort_keys=True),
+                                  hw, json.dumps(evs[hw - 1], sort_keys=True)),
+                              {"kind": "history", "strict": True, "line": hw, "lines": evs})
+
     def replay(self, ctx, data):
         if data.get("kind") == "history":
             lines = [json.dumps(x, separators=(",", ":")) for x in data["lines"]]
-            r, ok, hw, _ = run_tlc(ctx, lines, "replay")
+            r, ok, hw, _ = run_tlc(ctx, lines, "replay", strict=bool(data.get("strict")))
             if r.status != "ok":
                 print("TLC did not run:", r.status)
                 return 2
